@@ -118,12 +118,13 @@ package openapi3
 
 //@ func (*Paths).Map
 //@   modifies nothing
-//@   loop 0 invariant fresh(m) && m != nil && (forall k string :: seen(k) <==> has(m, k))
+//@   loop 0 invariant fresh(m) && m != nil && (forall k string :: seen(k) <==> has(m, k)) && (forall k string :: has(m, k) ==> m[k] == paths.m[k])
 //@   ensures fresh(result) && result != nil
 //@   ensures paths != nil ==> (forall k string :: has(result, k) <==> has(paths.m, k))
+//@   ensures [values] paths != nil ==> (forall k string :: has(result, k) ==> result[k] == paths.m[k])
 //@   ensures paths == nil ==> (forall k string :: !has(result, k))
 //@   option safety-tags C20
-//@   tag C04
+//@   tag C04 C03
 
 //@ func (*Paths).Validate
 //@   requires paths != nil
